@@ -37,7 +37,7 @@ def _pt(p):
 def _sync_fields(s, db=None):
     out = [
         ("pool", "<<" + ", ".join(task_tla(t) for t in s["pool"]) + ">>"),
-        ("cached", _ids_seq(s["cached"])),
+        ("cached", _ids_seq(s["cached"])), ("cache_identical", tla(s.get("cache_identical", True))),
         ("dup", tla(set(map(tuple, s["dup"])))),
         ("buckets", tla(set(s["buckets"]))),
         ("empty_buckets", tla(set(s["empty_buckets"]))),
@@ -108,11 +108,29 @@ def event_tla(ev):
         f += _sync_fields(ev["sync"], ev.get("db"))
     elif e == "boot":
         f += [("restart", tla(ev["restart"]))] + _sync_fields(ev["sync"], None)
+    elif e == "ds_update":
+        def _sp(d):
+            if d is None:
+                return '[present |-> FALSE]'
+            return ('[present |-> TRUE, st |-> %s, held |-> %s, queued |-> %s, rh |-> %s, flows |-> %s, outs |-> %s, preok |-> %s]'
+                    % (tla(d["st"]), tla(d["held"]), tla(d["queued"]), tla(d["rh"]),
+                       tla(set(d["flows"])) if isinstance(d["flows"], list) else tla(d["flows"]),
+                       tla(set(d["outs"])), tla(d["preok"])))
+        def _spmap(m):
+            items = []
+            for k, v in m.items():
+                n_, p_ = k.rsplit(".", 1)
+                items.append("<<%s, %d>> :> %s" % (tla(n_), int(p_), _sp(v)))
+            return "(" + " @@ ".join(items) + ")" if items else "<<>>"
+        f += _sync_fields(ev["sync"], None)
+        f += [("store", _spmap(ev["store"])), ("client", _spmap(ev["client"])),
+              ("client_equal", tla(ev["client_equal"])), ("checksum_ok", tla(ev["checksum_ok"])),
+              ("diffclass", tla(ev.get("client_diff_class", "none")))]
     elif e == "cmd_done":
         f += [("name", tla(ev["name"]))] + _sync_fields(ev["sync"], None)
     elif e in ("set_stop",):
         f += [("mode", tla(ev["mode"] or "none"))] + _sync_fields(ev["sync"], None)
-    elif e == "stall":
+    elif e in ("stall", "quiescent"):
         f += _sync_fields(ev["sync"], None)
     elif e == "sched_stop":
         f += [("reason", tla(ev["reason"]))] + _sync_fields(ev["sync"], None)
@@ -130,7 +148,7 @@ def event_tla(ev):
         return None
     return "[" + ", ".join(f"{k} |-> {v}" for k, v in f) + "]"
 
-KEEP = {"merge", "flow", "cmd", "cmd_done", "env_job", "sched_stop", "restored", "crash", "env_launch", "spawn", "remove", "state", "prepare", "msg", "q_release", "rh_compute", "loop_end", "boot", "set_stop",
+KEEP = {"quiescent", "ds_update", "merge", "flow", "cmd", "cmd_done", "env_job", "sched_stop", "restored", "crash", "env_launch", "spawn", "remove", "state", "prepare", "msg", "q_release", "rh_compute", "loop_end", "boot", "set_stop",
         "stall", "end"}
 
 def run_tla(w_tla: str, events: list, opt: dict):
